@@ -351,8 +351,7 @@ func (v *Value) Contains(other *Value) bool {
 	baseValue := v.getResolvedValue()
 	switch baseValue.Kind() {
 	case reflect.Struct:
-		fieldValue := baseValue.FieldByName(other.String())
-		return fieldValue.IsValid()
+		return fieldByName(baseValue, other.String()).IsValid()
 	case reflect.Map:
 		// We can't check against invalid types
 		if !other.val.IsValid() {
@@ -532,6 +531,21 @@ func (v *Value) EqualValueTo(other *Value) bool {
 	return v.val.CanInterface() && other.val.CanInterface() &&
 		v.val.Type().Comparable() && other.val.Type().Comparable() &&
 		v.Interface() == other.Interface()
+}
+
+// fieldByName returns the struct field with the given name like reflect's FieldByName,
+// but yields the zero Value (instead of panicking) when the field is promoted through
+// an embedded pointer that is nil.
+func fieldByName(v reflect.Value, name string) reflect.Value {
+	sf, ok := v.Type().FieldByName(name)
+	if !ok {
+		return reflect.Value{}
+	}
+	field, err := v.FieldByIndexErr(sf.Index)
+	if err != nil {
+		return reflect.Value{}
+	}
+	return field
 }
 
 type sortedKeys []reflect.Value
